@@ -17,7 +17,7 @@ import (
 
 // C10 — every storage backend behaves as the same keyed map.
 //
-// Part A  all operation sequences of length d over the 25-letter alphabet, the same sequence applied to
+// Part A  all operation sequences of length d over the 26-letter alphabet, the same sequence applied to
 //         every backend, each on fresh storage, stepped in lockstep with ref.KV. No pruning except that a
 //         context setter which leaves the model context unchanged is not generated.
 // Part B  the same alphabet explored deeper by explicit-state search over the reference's states, with the
@@ -29,10 +29,10 @@ func init() {
 	register(&mc.Check{
 		ID:    "C10",
 		Level: "model_checking",
-		Rule: "Part A: all sequences of exactly d operations (d=4 quick, 5 thorough; every shorter sequence is a prefix of one) over SetPrefix{BIN,TEMPLATE,STATICLOAD,STATE,USERDATA}, SetSession{'',ss,tt}, SetLanguage{nil,nor,swa}, SetLock(TEMPLATE,off|on), seal=SetLock(0), Put{foo,foob,Pfoo}x{'text',00ff}, Get{foo,foob,Pfoo}, Dump{'',fo} drained, " +
+		Rule: "Part A: all sequences of exactly d operations (d=4 quick, 5 thorough; every shorter sequence is a prefix of one) over SetPrefix{BIN,TEMPLATE,STATICLOAD,STATE,USERDATA}, SetSession{'',ss,tt}, SetLanguage{nil,nor,swa}, SetLock(TEMPLATE,off|on), seal=SetLock(0,true|false), Put{foo,foob,Pfoo}x{'text',00ff}, Get{foo,foob,Pfoo}, Dump{'',fo} drained, " +
 			"each applied to mem, fs (text) and fs (binary keys) on fresh storage and stepped in lockstep with a reference map keyed by (type, session if sessioned, key, language if translated); only reduction: a context setter that would not change the reference context is not generated. " +
 			"After a refused Put the content is read back through a second handle (fs); after every sequence the lock state is probed (one Put per read-only type) and every stored or addressed entry, its default-language and its other-language variant are read back (second handle on fs, same handle on mem). " +
-			"Part B: explicit-state search over reference states to depth D (7 quick, 8 thorough): each state is reached once by its shortest operation path on fresh backends, all 25 operations are applied and checked, and the raw backend state (handle context by reflection + directory/map content) is read back after every transition and compared with the raw state of the canonical representative; a mismatch is never a verdict: it is counted and the continuations below it are run statelessly (bounded; none occurs on the unchanged tree). " +
+			"Part B: explicit-state search over reference states to depth D (7 quick, 8 thorough): each state is reached once by its shortest operation path on fresh backends, all 26 operations are applied and checked, and the raw backend state (handle context by reflection + directory/map content) is read back after every transition and compared with the raw state of the canonical representative; a mismatch is never a verdict: it is counted and the continuations below it are run statelessly (bounded; none occurs on the unchanged tree). " +
 			"Part C: on fs text and binary, for every set of <=3 stored (session,key) entries over sessions {'',ss,tt} and a universe of well-formed keys, Dump under every session and every prefix must list exactly the reference's entries. " +
 			"states = distinct reference states (context + content) reached; non-trivial = reference states holding at least one entry",
 		Assumptions: []string{
@@ -63,7 +63,7 @@ func c10Alphabet() []ref.KVOp {
 	for _, l := range c10Langs {
 		a = append(a, ref.KVOp{Op: "lang", Lang: l})
 	}
-	a = append(a, ref.KVOp{Op: "lock", Typ: ref.TTemplate, On: false}, ref.KVOp{Op: "lock", Typ: ref.TTemplate, On: true}, ref.KVOp{Op: "lock", Typ: 0, On: true})
+	a = append(a, ref.KVOp{Op: "lock", Typ: ref.TTemplate, On: false}, ref.KVOp{Op: "lock", Typ: ref.TTemplate, On: true}, ref.KVOp{Op: "lock", Typ: 0, On: true}, ref.KVOp{Op: "lock", Typ: 0, On: false})
 	for _, k := range c10Keys {
 		for _, v := range c10Vals {
 			a = append(a, ref.KVOp{Op: "put", Key: ref.Bs(k), Val: ref.Bs(v)})
@@ -624,7 +624,7 @@ func c10Run(c *mc.Ctx) {
 		bn = append(bn, b.Name)
 	}
 	c.Note("backends", strings.Join(bn, ","))
-	c.Vacuity("alphabet-has-25-letters", len(alpha) == 25)
+	c.Vacuity("alphabet-has-26-letters", len(alpha) == 26)
 
 	visit := func(m *ref.KV) {
 		k := m.Key()
